@@ -1,5 +1,5 @@
 # plan and claim for C02 (SM4 block function)
-_CFG = ["avx2", "avx", "sse", "aesni1", "noaes", "purego"]
+_CFG = ["avx2", "avx", "sse", "aesni1", "noaes", "noclmul", "purego"]
 PLAN = dict(
     level="exploration",
     rule="block: all 128 single-bit, 128 single-zero-bit, 256 repeated-byte, 16x256 one-byte-position, ascending and multiplicative "
@@ -17,8 +17,8 @@ PLAN = dict(
 CLAIM = dict(
     text="Runtime monitoring of sm4.NewCipher blocks against an independent textbook SM4: structured and random key/block pairs "
          "through Encrypt/Decrypt alone and at every lane of 1..40-block batches (asm ECB 16/8/4/1 loops, 4/8-block batch "
-         "interface), in place and into guard-page buffers, in six dispatch configurations (AES-NI AVX2/AVX/SSE, single-block "
-         "AES-NI, table-driven Go, purego). Held on the cases executed; not a proof over all 2^256 pairs.",
+         "interface), in place and into guard-page buffers, in seven dispatch configurations (AES-NI AVX2/AVX/SSE, single-block "
+         "AES-NI, AES-NI without PCLMULQDQ (another constructor branch), table-driven Go, purego). Held on the cases executed; not a proof over all 2^256 pairs.",
     design_ref="DESIGN.md 6 (C02)",
     note="trusted: harness/ref/sm4, Go runtime, kernel page protection; arm64/ppc64le assembly and SM4-NI are not executed here",
     technique="differential reference monitor per lane + guard-page buffers across dispatch tiers",
